@@ -111,6 +111,7 @@ var linModel = (&porcupine.NondeterministicModel{
 
 // janitor call-out recorder for the eviction variants
 type linJanitor struct {
+	calls   int64 // number of janitor call-outs so far (atomic)
 	cleanup bool
 	clock   *int64
 	mu    sync.Mutex
@@ -119,6 +120,7 @@ type linJanitor struct {
 }
 
 func (j *linJanitor) mark() int64 {
+	defer atomic.AddInt64(&j.calls, 1)
 	t := atomic.AddInt64(j.clock, 1)
 	j.mu.Lock()
 	prev := j.last
@@ -130,6 +132,7 @@ func (j *linJanitor) mark() int64 {
 func (j *linJanitor) Add(_ context.Context, name string, inc float64, _ ...string) {
 	switch name {
 	case cache.MetricEvict:
+		defer atomic.AddInt64(&j.calls, 1)
 		t := atomic.AddInt64(j.clock, 1)
 		j.mu.Lock()
 		prev := j.last
@@ -144,6 +147,7 @@ func (j *linJanitor) Add(_ context.Context, name string, inc float64, _ ...strin
 }
 func (j *linJanitor) Set(context.Context, string, float64, ...string) {}
 func (j *linJanitor) evictionNeeded() bool {
+	defer atomic.AddInt64(&j.calls, 1)
 	t := atomic.AddInt64(j.clock, 1)
 	j.mu.Lock()
 	prev := j.last
@@ -195,6 +199,11 @@ func c08Case(b *Batch, idx int) {
 	for len(keys) < nKeys {
 		keys = append(keys, []byte(fmt.Sprintf("lin-%d", len(keys))))
 	}
+	pairOnly := collide && rng.Intn(2) == 0
+	if pairOnly { // only the two colliding keys: every operation contends for one hash slot
+		nKeys = 2
+		keys = keys[:2]
+	}
 	clients := 2 + rng.Intn(15)
 	opsPer := 10 + rng.Intn(31)
 	for clients*opsPer > 100*nKeys/2 { // keep per-key partitions small (batch ops land in every partition)
@@ -211,6 +220,10 @@ func c08Case(b *Batch, idx int) {
 	var clock int64
 	jan := &linJanitor{clock: &clock}
 	cfg := cache.Config{EvictionStrategy: strat, DeleteExpiredAfter: 100 * time.Hour, ExpirationJitter: -1}
+	if pairOnly {
+		prof = [6]int{25, 60, 92, 94, 96, 20} // delete-heavy
+		b.R.Count("histories.colliding_pair_only", 1)
+	}
 	cleanup := !evict && rng.Intn(2) == 0
 	if cleanup {
 		// rewrite-heavy mix: long-expired versions are constantly replaced while the janitor scans
@@ -329,9 +342,19 @@ func c08Case(b *Batch, idx int) {
 	close(start)
 	wg.Wait()
 	if evict || cleanup {
-		// let the cycle in progress finish so that its call-out is recorded
-		time.Sleep(3 * time.Millisecond)
+		// A cleanup/eviction pass that ran (even partly) while clients were active reports itself only at its call-out, which
+		// follows the pass in the janitor goroutine: wait for two further call-outs (the first may precede an in-progress pass).
+		startCalls := atomic.LoadInt64(&jan.calls)
+		deadline := time.Now().Add(30 * time.Second)
+		for atomic.LoadInt64(&jan.calls) < startCalls+2 {
+			if time.Now().After(deadline) {
+				b.R.Inconcl("C08: janitor produced no call-out within 30s after the clients finished")
+				return
+			}
+			time.Sleep(200 * time.Microsecond)
+		}
 	}
+	runtime.KeepAlive(be) // the finalizer of the cache stops its janitor: keep the instance reachable until here
 	jan.mu.Lock()
 	evictions := append([]linEv(nil), jan.evs...)
 	jan.mu.Unlock()
